@@ -1,5 +1,5 @@
 """C15 - re-subscribing operators run attempts in sequence, the right number of times (DESIGN 6/C15)."""
-import vlib, parts_resub
+import vlib, parts_resub, parts_multi
 
 PID = 'C15'
 
@@ -8,6 +8,8 @@ def main(argv):
     rep = vlib.Report(PID, 'model_checking', argv)
     vlib.build_harness()
     parts_resub.run(rep, PID, rep.tier == 'thorough')
+    # ConcatAll / FlatMap over an asynchronous outer source: one inner source at a time, the outer notification waits for it (HO.tla)
+    parts_multi.run_ho(rep, PID, rep.tier == 'thorough')
     rep.cov['rule'] = ('TLC enumerates every behaviour of Resub.tla: operator configuration (Retry, RetryWithConfig MaxRetries 0..2 x ResetOnSuccess, RepeatWith 0..3, DoWhile/While in 4 flavours, '
                        'Catch, OnErrorResumeNextWith 2..3, Concat/ConcatWith 1..3) x every sequence of attempt outcomes (0..MaxVals values then completion or error) up to MaxAttempts x every truth '
                        'sequence of the loop condition x cancellation of the subscription context during every attempt (Retry); the real operators run over scripted cold sources whose n-th '
@@ -20,4 +22,7 @@ def main(argv):
 
 def replay(path):
     vlib.build_harness()
+    import json
+    if json.load(open(path))['replay'].get('module') == 'HOGen':
+        return parts_multi.replay_case(PID, path)
     return parts_resub.replay_case(PID, path)
